@@ -419,7 +419,9 @@ func (c *Client) recv(keepaliveQuit chan<- struct{}) {
 			}, H: c.Session.SMState.Inbound}
 			err = c.Send(answer)
 			if err != nil {
+				// The connection is lost: report it like a read error, so that it can be re-established
 				c.ErrorHandler(err)
+				c.disconnected(c.Session.SMState)
 				return
 			}
 		case stanza.StreamClosePacket:
